@@ -199,7 +199,11 @@ func runC16(r *simkit.Run) {
 		w.WriteHeader(http.StatusOK)
 	})
 	sc := confighttp.NewDefaultServerConfig()
-	sc.Endpoint = "127.0.0.1:0"
+	port, _ := nextPortPair()
+	for i := 0; i < 200 && !portsFree(port); i++ {
+		port, _ = nextPortPair()
+	}
+	sc.Endpoint = fmt.Sprintf("127.0.0.1:%d", port)
 	sc.TLSSetting = nil // plain HTTP: TLS is not part of the property
 	sc.MaxRequestBodySize = cfg.Limit
 	if cfg.Enabled != nil {
@@ -214,7 +218,11 @@ func runC16(r *simkit.Run) {
 	srv.SetKeepAlivesEnabled(false)
 	ln, err := sc.ToListener(context.Background())
 	if err != nil {
-		panic(err)
+		// no socket to be had right now (port range busy): an infrastructure condition, not a property violation
+		r.Count("probe.infra_socket_unavailable")
+		r.Logf("skipped: %v", sanitize(err, port))
+		time.Sleep(200 * time.Millisecond)
+		return
 	}
 	cl := &chunkListener{Listener: ln, chunk: cfg.Chunk, truncate: cfg.Truncate}
 	done := make(chan struct{})
@@ -245,6 +253,14 @@ func runC16(r *simkit.Run) {
 	if perr != nil {
 		// keep the ephemeral port out of messages and logs (replay compares the event log)
 		perr = fmt.Errorf("%s", strings.ReplaceAll(perr.Error(), ln.Addr().String(), "ADDR"))
+	}
+	if perr != nil && (strings.Contains(perr.Error(), "cannot assign requested address") || strings.Contains(perr.Error(), "address already in use")) {
+		r.Count("probe.infra_socket_unavailable")
+		r.Logf("skipped: %v", perr)
+		_ = srv.Close()
+		<-done
+		time.Sleep(200 * time.Millisecond)
+		return
 	}
 	if perr == nil {
 		status = resp.StatusCode
@@ -348,7 +364,7 @@ func min64(a, b int64) int64 {
 }
 
 var HarnessC16 = simkit.Harness{
-	Prop: "C16", Name: "svc/c16", Run: runC16, NoBubble: true, StepTimeout: 60e9,
+	Prop: "C16", Name: "svc/c16", Run: runC16, NoBubble: true, StepTimeout: 60e9, RateLimit: 40,
 	Real: []string{"confighttp.ClientConfig.ToClient (compression round-tripper, every algorithm and level)", "confighttp.ServerConfig.ToServer (decompressor, max-body interceptors, enabled-decoder list)", "net/http client and server over kernel loopback TCP"},
 	Stub: []string{"listener wrapper owned by the simulator: the server's reads are cut into tape-drawn chunk sizes (1 B .. 64 KiB) and optionally fail after N bytes (never a sleep)", "innermost handler reading with a tape-drawn buffer size"},
 	Rule: "one run = one request: tape-drawn algorithm (none, gzip, zlib, deflate, zstd, snappy, lz4) and level, enabled-decoder list (default or custom), max_request_body_size (default, 1, 100, 1000, 4096, 65536, 70000), body (zeros / text / incompressible; empty, tiny, limit-1, limit, limit+1, codec block sizes, bombs of 2-8x the limit), server read chunk size, optional truncation of the stream, handler buffer size; runs outside the synctest bubble on real loopback sockets (real time, no virtual clock: the property does not depend on timing; one request at a time); distinct = distinct event-log hash; non-trivial = a compressed or truncated request",
